@@ -57,6 +57,7 @@ def cells_for(tier):
 
 def main(tier, write_baseline=False):
     run = Run("C02", tier, "other", checker_cmd=common.checker_cmd("C02", tier))
+    M.RAISE_CTX.update(prop="C02", write=bool(write_baseline))
     run.trusted_base.update(["cddvc E1 block contracts (access paths via getattr/setattr, Seq views)", "z3 5.1 sequences"])
     refuted = e1.run_contracts(run, "contracts.C02")
     if write_baseline:
@@ -89,6 +90,7 @@ def main(tier, write_baseline=False):
         seen.add(o["name"])
         run.violation(o["name"], "obligation refuted by %s on path %s" % (o["backend"], " ".join(o["trace"])), solver_output={"model": o["model"], "smt2": (o["smt2"] or "")[:4000]})
     M.report(run, "C02/bounded", fails)
+    M.flush_raise_baseline()
     common.apply_controls(run, tier)
     return run.finish(explanation="PROVED (lemma): defaults stay aligned with the last parameters through function.parse's padding. BOUNDED only: the round-trip itself.")
 
